@@ -334,8 +334,26 @@ FixedList == <<
     Child>>, TRUE)
 >>
 
+(* fixed schemas added after the catalogue was first numbered: appended at the END so that no id changes *)
+TailList == <<
+  \* ONE side of a number carrying BOTH the inclusive and the exclusive keyword (JSON Schema `minimum` + `exclusiveMinimum`,
+  \* CUE `>=a & >b`): the same value on both (the exclusive one decides: the value ON the bound is invalid), the inclusive one
+  \* tighter, the exclusive one tighter; integers and floats; required, optional, array item, map value, referenced struct.
+  \* 0, 1, 1.5, 2 sit on / between the bounds, so a reader that keeps only ONE of the two keywords is seen whichever it keeps.
+  Fixed("double-bounds", <<
+    Def("Root", TStruct(<<
+      F("a", TNum("float64", GeGt(0, 0), NoB)),  F("b", TNum("float64", NoB, LeLt(2, 2))),
+      F("c", TInt("int64", GeGt(0, 0), LeLt(2, 2))),
+      F("d", TNum("float64", GeGt(2, 0), NoB)),  F("e", TNum("float64", GeGt(0, 1), NoB)),
+      F("f", TNum("float64", NoB, LeLt(1, 2))),  F("g", TInt("int64", NoB, LeLt(2, 1))),
+      FOpt("h", TArr(TInt("int64", GeGt(0, 0), NoB))), FOpt("i", TMap(TNum("float64", NoB, LeLt(2, 2)))),
+      FOpt("j", TNum("float64", GeGt(0, 0), Le(2))), F("r", TRef("Sub"))>>)),
+    Def("Sub", TStruct(<<F("n", TInt("int64", GeGt(1, 1), NoB)), FOpt("m", TNum("float64", Ge(0), LeLt(2, 2)))>>))>>, TRUE)
+>>
+
 (* ------------------------------ catalogue ------------------------------- *)
-Catalogue ==
+\* CoreCatalogue: what EmitSchemaMC (C12) builds on; Catalogue: what the generated-code checks enumerate
+CoreCatalogue ==
   FixedList
   \o [i \in 1..(Len(ConsLeaves) * Len(BasicPos)) |->
         Entry(ConsLeaves[((i - 1) \div Len(BasicPos)) + 1], BasicPos[((i - 1) % Len(BasicPos)) + 1])]
@@ -343,6 +361,7 @@ Catalogue ==
         Entry(ConsLeaves[((i - 1) \div Len(DeepPos)) + 1], DeepPos[((i - 1) % Len(DeepPos)) + 1])]
   \o [i \in 1..(Len(PlainLeaves) * NPlainPos) |->
         Entry(PlainLeaves[((i - 1) \div NPlainPos) + 1], BasicPos[((i - 1) % NPlainPos) + 1])]
+Catalogue == CoreCatalogue \o TailList
 
 Marker == [d |-> NoJ, f |-> "index", p |-> <<>>]
 Init == IF Mode = "index"
